@@ -94,7 +94,12 @@ def read_files(prefix):
             lines = [ln.rstrip("\n").split(",") for ln in f if ln.strip() != ""]
         os.remove(fn)
         rank, _, typ = key.rpartition("-")
-        rows = [lines[0]] + [[int(x) for x in ln] for ln in lines[1:]] if lines else []
+        def num(ln):
+            try:
+                return [int(x) for x in ln]
+            except ValueError:
+                return ln            # malformed row: kept as text, reported by check_trace
+        rows = [lines[0]] + [num(ln) for ln in lines[1:]] if lines else []
         out[(rank, typ)] = rows
     return out
 
@@ -154,8 +159,8 @@ def check_trace(fam, key, rows, ranks, exp, feats, out, strict, pos_dm=None):
         out.append((fam, "header", f, header, rows[0]))
         return
     body = rows[1:]
-    if any(len(x) != 2 * n + 1 for x in body):
-        out.append((fam, "row-width", f, 2 * n + 1, body))
+    if any(len(x) != 2 * n + 1 or any(not isinstance(v, int) for v in x) for x in body):
+        out.append((fam, "row-malformed", f, "%d integer fields" % (2 * n + 1), body))
         return
     stamps = [tuple(x[:n]) for x in body]
     if not lex_ok(stamps, strict):
@@ -195,6 +200,25 @@ def run_all(fam, nest_fn, regs, feats, out):
         for thr in range(2, min(nrows + 2, 9) + 1):
             o = collect(nest_fn, regs, thr, False)
             compare_runs(fam, base, o, "content-depends-on-flush-threshold", set(feats) | {"thr:%d" % thr}, out)
+        # a trace's rows do not depend on which other traces are registered
+        if len(regs) > 1:
+            def strip(rows):
+                # header + (coordinates, position) of every row: stamps may legitimately differ,
+                # because registering a trace can add iteration ticks
+                if not rows:
+                    return []
+                n = (len(rows[0]) - 1) // 2
+                return [rows[0]] + [r[n:] for r in rows[1:]]
+            for one in regs:
+                o = collect(nest_fn, [one], BIG, False)
+                a, b = strip(o.get(one, [])), strip(base.get(one, []))
+                if a != b and (len(a) > 1 or len(b) > 1):
+                    f2 = set(feats) | {"trace:" + one[1], "alone", "nest:" + fam}
+                    it = iter(b[1:])
+                    if a and a[0] == b[0] and all(any(r == x for x in it) for r in a[1:]):
+                        f2.add("dm:alone_rows_are_a_subsequence_of_rows_with_all_registered")
+                    out.append(("trace-" + one[1].rstrip("0123456789").rstrip("_"),
+                                "rows-depend-on-other-registrations", f2, b, a))
         o = collect(nest_fn, regs, BIG, True)
         # a consumable trace that never started delivers nothing; files then do not exist either
         o = {k: v for k, v in o.items() if v}
@@ -415,7 +439,87 @@ def case_project(case):
     return out
 
 
+def case_popins(case):
+    """Populate into a non-empty destination (inserting / appending / overwriting):
+    z_k << a_k with the body accumulating.  Destination-side traces: header, stamp
+    order, independence of threshold / consumable / other registrations; source
+    side and iter: full row check."""
+    zc, ac = case
+    out = []
+    n = len(zc)
+    regs = [("K", "iter"), ("K", "populate_1"), ("K", "populate_read_0"), ("K", "populate_write_0")]
+
+    def nest():
+        Z = Tensor.fromFiber(["K"], mkrow(zc, 3), shape=[n])
+        a = mkrow(ac, 2)
+        a.getRankAttrs().setId("K")
+        for k, (zr, av) in Z.getRoot() << a:
+            zr += av
+    f = feats_cells(zc, ac)
+    A = present(ac)
+    Zs = stored(zc)
+    if Zs and A and A[0] < Zs[-1]:
+        f.add("inserting")
+    base = run_all("popins", nest, regs, f, out)
+    if base is None:
+        return out
+    check_trace("popins", regs[0], base.get(regs[0], []), ["K"], [((k,), i) for i, k in enumerate(A)], f, out, True)
+    check_trace("popins", regs[1], base.get(regs[1], []), ["K"], [((k,), rawpos(ac, k)) for k in A], f, out, False,
+                list(range(len(A))))
+    check_trace("popins", regs[2], base.get(regs[2], []), ["K"], None, f, out, False)
+    check_trace("popins", regs[3], base.get(regs[3], []), ["K"], None, f, out, False)
+    return out
+
+
+def case_flat2(case):
+    """Upper rank with tuple coordinates (a flattened rank, shape associated for
+    the trace), plain rank below: rows carry the flattened upper coordinate."""
+    spec, = case
+    out = []
+    TUP = [(0, 0), (0, 1), (1, 0), (1, 1)]
+    regs = [("MK", "iter"), ("N", "iter")]
+
+    def nest():
+        cs, ps = [], []
+        for i, cells in enumerate(spec):
+            if cells is None:
+                continue
+            cs.append(TUP[i])
+            ps.append(mkrow(cells))
+        A = Tensor.fromFiber(["MK", "N"], Fiber(cs, ps), shape=[(2, 2), 2])
+        Metrics.associateShape("MK", (2, 2))
+        for mk, a_n in A.getRoot():
+            for nn, v in a_n:
+                pass
+    f = feats_cells(*[c for c in spec if c is not None]) | {"tuple_upper_rank"}
+    base = run_all("flat2", nest, regs, f, out)
+    if base is None:
+        return out
+    live = [i for i, c in enumerate(spec) if c is not None and present(c)]
+    st = [i for i, c in enumerate(spec) if c is not None]
+    expU = [((TUP[i][0] * 2 + TUP[i][1],), st.index(i)) for i in live]
+    check_trace("flat2", regs[0], base.get(regs[0], []), ["MK"], expU, f, out, True)
+    expN = []
+    for i in live:
+        for k in present(spec[i]):
+            expN.append(((TUP[i][0] * 2 + TUP[i][1], k), rawpos(spec[i], k)))
+    check_trace("flat2", regs[1], base.get(regs[1], []), ["MK", "N"], expN, f, out, True)
+    return out
+
+
 # ---------------------------------------------------------------------------
+
+def shard_popins(acc, shard, nshards, params):
+    u = f1(params)
+    core.drive(acc, "popins", case_popins, ((z, a) for z in u for a in u), shard, nshards,
+               family="populate-into-nonempty[N=%d]" % params)
+
+
+def shard_flat2(acc, shard, nshards, params):
+    u = [None] + f1(2)
+    core.drive(acc, "flat2", case_flat2, ((sp,) for sp in itertools.product(u, repeat=4)), shard, nshards,
+               family="tuple-upper-rank[4 tuple coordinates x F1(2)]")
+
 
 def shard_iter1(acc, shard, nshards, params):
     core.drive(acc, "iter1", case_iter1, ((c,) for c in f1(params)), shard, nshards, family="iter1[N=%d]" % params)
@@ -459,7 +563,7 @@ def shard_project(acc, shard, nshards, params):
 
 
 CASES = {"iter1": case_iter1, "and1": case_and1, "nest2": case_nest2, "matvec": case_matvec,
-         "matmul3": case_matmul3, "project": case_project}
+         "matmul3": case_matmul3, "project": case_project, "popins": case_popins, "flat2": case_flat2}
 
 
 def run(ctx):
@@ -484,3 +588,9 @@ def run(ctx):
         ctx.shards(shard_matmul3, 2 if q else 3)
     if sel("project"):
         ctx.shards(shard_project, 3 if q else 4)
+    if sel("popins"):
+        ctx.shards(shard_popins, 3 if q else 4)
+        ctx.bounds["popins"] = "z, a in F1(%d): populate into a non-empty destination (insert / append / overwrite)" % (3 if q else 4)
+    if sel("flat2"):
+        ctx.shards(shard_flat2, None)
+        ctx.bounds["flat2"] = "upper rank with tuple coordinates over {0,1}^2 (shape associated), rows in F1(2) or absent"
